@@ -4,7 +4,7 @@ set -e
 cd "$(dirname "$0")/../native"
 export CARGO_NET_OFFLINE=true
 unset RUSTFLAGS
-mkdir -p /var/tmp/verif-embed
+mkdir -p /var/tmp/verif-embed /var/tmp/verif-embed2
 cargo build --offline 2>&1 | tail -1
 CARGO_TARGET_DIR="$PWD/target-embed" cargo build --offline --features embed 2>&1 | tail -1
 CARGO_TARGET_DIR="$PWD/target-async" cargo build --offline --features asyncvfs 2>&1 | tail -1
